@@ -48,6 +48,19 @@ Theorem C13_deseasonalizer_removes_component_of_time_point : forall d s i,
 Proof. exact code_des_transform_nth. Qed.
 Print Assumptions C13_deseasonalizer_removes_component_of_time_point.
 
+(* fit keeps the FIRST period of the decomposition's seasonal series S (periodic with period sp, as
+   long as the training series): on the training series itself transform removes exactly S *)
+Theorem C13_training_series_component : forall (S : list Q) sp m y i,
+  0 < sp -> (Z.to_nat sp <= length S)%nat ->
+  (forall j, (j < length S)%nat -> nth j S 0%Q = nth (j mod Z.to_nat sp)%nat S 0%Q) ->
+  length S = length (svals y) -> (i < length (svals y))%nat ->
+  let d := {| d_sp := sp; d_model := m; d_t0 := sstart y;
+              d_seasonal := firstn (Z.to_nat sp) S |} in
+  wf d /\
+  nth i (svals (des_transform d y)) 0%Q = op_fwd m (nth i (svals y) 0%Q) (nth i S 0%Q).
+Proof. exact training_component. Qed.
+Print Assumptions C13_training_series_component.
+
 (* inverse_transform(transform(z)) == z with the same index, after any update history, for any
    stretch; additive always, multiplicative when no seasonal component is zero *)
 Theorem C13_deseasonalizer_inverse_id : forall decompose sp m y zs s,
